@@ -2800,7 +2800,13 @@ func (s *Server) serveConnCounted(c net.Conn, countConcurrency bool) error {
 			ctx.Request.bodyStream = nil
 		}
 
-		idleConnTime.Store(ctx.time.Unix())
+		// Only a connection with nothing in hand is idle. With a pipelined request
+		// already buffered the response above may still sit in bw, and the next
+		// loop iteration serves that request right away: Shutdown must not close
+		// such a connection as idle, or the unflushed response is lost.
+		if (br == nil || br.Buffered() == 0) && (bw == nil || bw.Buffered() == 0) {
+			idleConnTime.Store(ctx.time.Unix())
+		}
 		s.setState(c, StateIdle)
 		ctx.Request.Reset()
 		ctx.Response.Reset()
